@@ -1277,6 +1277,13 @@ fn has_head(e: &Sexp, h: &str) -> bool {
 }
 fn has_call(e: &Sexp) -> bool { has_head(e, "call") }
 
+fn has_sigil_xcrement(e: &Sexp) -> bool {
+    match e {
+        Sexp::List(v) => (e.head() == Some("xcr") && v.last().map(|r| r.head() == Some("ref") && r.args().get(2).map(|s| s.as_atom() != "n").unwrap_or(false)).unwrap_or(false)) || v.iter().any(has_sigil_xcrement),
+        _ => false,
+    }
+}
+
 fn eval_expr(ectx: &Sexp, e: &Sexp) -> Sexp {
     let mut scope = truth::Builder::new().capture_diagnostics(true).build();
     let mut truth = scope.truth();
@@ -1298,7 +1305,10 @@ fn eval_expr(ectx: &Sexp, e: &Sexp) -> Sexp {
     // dynamic type: evaluate in the VM under a valuation that respects the register types
     // (the VM has no calls, enum constants or label properties)
     for difficulty in 0..(if is_ext(ectx) { 3u32 } else { 1 }) {
-    if !has_call(e) && !has_head(e, "callx") && !has_head(e, "enum") && !has_head(e, "lprop") {
+    // (`++$REG[f]` with a sigil writes through a cast view: AstVm keeps registers dynamically typed and stores the int, so a
+    // later natural read of the same register in the same expression comes back as an int - a trait of the test VM,
+    // not a statement about the checker; such expressions are compared with the model only)
+    if !has_call(e) && !has_head(e, "callx") && !has_head(e, "enum") && !has_head(e, "lprop") && !has_sigil_xcrement(e) {
         let value = std::panic::catch_unwind(std::panic::AssertUnwindSafe(|| {
             let mut vm = truth::vm::AstVm::new().with_difficulty(difficulty);
             for &(r, t) in REGS {
